@@ -390,6 +390,9 @@ def rand_msg(rng, schema, ty, depth=0, big=False, unknown=True, budget=None):
                     # cannot build deeper: unselect the whole group
                     cases[f.group] = 0
                     slots.append(['one', 0, ('zero',)])
+                elif f.type not in (T_STRING, T_BYTES, T_MESSAGE) and rng.random() < 0.25:
+                    # a selected member holding zero: present all the same (the case word says so), proto2 and proto3
+                    slots.append(['one', c, ('w', 0)])
                 else:
                     slots.append(['one', c, rand_val(rng, schema, f, depth, big, budget)])
             else:
@@ -809,6 +812,9 @@ def encode_records(schema, msg, rng=None, knobs=None):
         else:
             if not is_present(f, s):
                 continue
+            if knobs.get('omit_req_dflt') and f.label == L_REQ and f.dflt is not None and rng.random() < 0.5:
+                continue                  # a required field WITH a declared default may be left off the wire: the parser
+                                          # accepts and the member holds the default (generated or generic initialiser alike)
             if knobs.get('stale') and f.type not in (T_MESSAGE,) and not f.oneof and rng.random() < 0.3:
                 # an earlier, overridden occurrence of a singular scalar/string/bytes field
                 recs.append(enc_elem(schema, f, rand_val(rng, schema, f, 9), rng, knobs))
